@@ -1,4 +1,4 @@
-import RulioProofs.ReloadLinear
+import RulioProofs.ReloadIndexed
 
 open AM
 
@@ -77,3 +77,95 @@ theorem rem_only_removes_partial (s : St) (id : String) (now : Int) (k : String)
 
 example : isOk ((St.empty .indexed).add "" [("a", .num 1)] 5).2 = true := by decide +kernel
 example : isOk ((((St.empty .linear).add "x" [("a", .num 1)] 5).1.rem "x" 6).2) = true := by decide +kernel
+
+
+/-- **store_is_facts_image** — stronger, list-level form of the mirror for every history of either kind: storage is
+the in-memory fact list document by document *in the same order* (both are updated by the same `amSet`/`amErase`). -/
+theorem store_is_facts_image (k : Kind) (ops : List StOp) :
+    ((St.empty k).runOps ops).store = ((St.empty k).runOps ops).facts.map (fun p => (p.1, J.obj p.2)) :=
+  St.runOps_storeEq ops (s := St.empty k) rfl
+
+/-- **reload_linear_identity** — for every history on a linear state, reloading from storage gives back *the very
+same state* (facts, storage, id counter; the linear state never touches the indexes). -/
+theorem reload_linear_identity (ops : List StOp) (now : Int) :
+    ((St.empty .linear).runOps ops).reload now = .ok ((St.empty .linear).runOps ops) :=
+  reload_linear_id (St.runOps_storeEq ops (s := St.empty .linear) rfl)
+    (St.runOps_linIdx ops (s := St.empty .linear) ⟨rfl, rfl, rfl⟩) now
+
+/-- **reload_observationally_equal (linear)** — hence every later history of operations behaves identically on the
+reloaded and on the live state: same results, same final state. -/
+theorem reload_observationally_equal_linear (ops later : List StOp) (now : Int) (t : St)
+    (h : ((St.empty .linear).runOps ops).reload now = .ok t) (op : StOp) :
+    (t.runOps later).stepOp op = (((St.empty .linear).runOps ops).runOps later).stepOp op := by
+  rw [reload_linear_identity] at h
+  cases h
+  rfl
+
+/-- **prepare_idempotent** — a fact that came out of `PrepareFact` (under a non-empty fresh id) is a fixed point:
+`ExtractRule` leaves it unchanged, and preparing it again with its own id at any later time `now'` yields the same
+id and the same fact as long as it is not expired at `now'` (property facts regenerate their canonical id, other
+facts keep the given one), and the `expired` error exactly when it is. -/
+theorem prepare_idempotent {given fresh : String} {x : Obj} {now : Int} {id : String} {m x' : Obj}
+    (hp : prepareFact given fresh x now = .ok (id, m, x')) (hfresh : fresh ≠ "") (fresh' : String) (now' : Int) :
+    indexedForm m = m ∧
+    (unexpired m now' = true → ∃ x'', prepareFact id fresh' m now' = .ok (id, m, x'')) ∧
+    (unexpired m now' = false → prepareFact id fresh' m now' = .error "expired") := by
+  obtain ⟨hform, hc⟩ := canon_of_prepare hp hfresh
+  refine ⟨hform, ?_, ?_⟩
+  · intro hu
+    rcases prepare_canon hc fresh' now' with ⟨h, _⟩ | ⟨_, h⟩
+    · rw [hu] at h; cases h
+    · exact h
+  · intro hu
+    rcases prepare_canon hc fresh' now' with ⟨_, h⟩ | ⟨h, _⟩
+    · exact h
+    · rw [hu] at h; cases h
+
+example : isOk (prepareFact "r1" "fresh#0"
+    [("rule", .obj [("when", .obj [("a", .num 1)])]), ("ttl", .num 5)] 100) = true := by decide +kernel
+
+/-- **reload_facts_indexed** — for every history on an indexed state and every reload time `now`, the indexed `Load`
+of the storage succeeds and its in-memory facts are exactly the live facts that are not expired at `now`, in the same
+order, with the same contents (hence the same absolute `expires`). That stored rule patterns can be re-indexed
+(`AllIndexable`) is proved from reachability: whether `AddPatternMap` fails depends on the pattern only. -/
+theorem reload_facts_indexed (ops : List StOp) (now : Int) :
+    ∃ t, St.iLoad ((St.empty .indexed).runOps ops).store now = .ok t ∧ t.kind = .indexed ∧
+      t.facts = ((St.empty .indexed).runOps ops).facts.filter (fun p => unexpired p.2 now) :=
+  have inv := IdxInv.runOps ops IdxInv.empty
+  iLoad_spec inv.storeEq inv.canon inv.indexable inv.nodup now
+
+/-- non-vacuity: `x` (ttl 5 at 10) is expired at 20 and dropped by the reload, `y` survives … -/
+example : (match St.iLoad ((St.empty .indexed).runOps
+      [.add "x" [("a", .num 1), ("ttl", .num 5)] 10, .add "y" [("b", .num 2)] 11]).store 20 with
+    | .ok t => t.facts.map (·.1) | .error _ => []) = ["y"] := by decide +kernel
+
+/-- … and at 12 both are reloaded, the rule `y` (array pattern) being re-indexed -/
+example : (match St.iLoad ((St.empty .indexed).runOps
+      [.add "x" [("a", .num 1), ("ttl", .num 5)] 10,
+       .add "y" [("rule", .obj [("when", .obj [("a", .arr [.num 1, .num 2])])])] 11]).store 12 with
+    | .ok t => t.facts.map (·.1) | .error _ => []) = ["x", "y"] := by decide +kernel
+
+/-- the same from the invariant (any state with list-mirrored storage and canonical, indexable, uniquely keyed facts) -/
+theorem reload_facts_indexed_of_inv {s : St} (he : StoreEq s) (hc : AllCanon s) (hi : AllIndexable s)
+    (hnd : (s.facts.map (·.1)).Nodup) (now : Int) :
+    ∃ t, St.iLoad s.store now = .ok t ∧ t.kind = .indexed ∧ t.facts = s.facts.filter (fun p => unexpired p.2 now) :=
+  iLoad_spec he hc hi hnd now
+
+/-- **reload_observationally_equal_indexed_partial** — for the indexed kind the reloaded state has the live state's
+unexpired facts but freshly built indexes. Any observation `obs` (search results, rule dispatch, …) that, on states
+satisfying the index invariants `IndexInv` (intended: `WF` with `TIOK`/`TINodup` of `RulioModel/StateInv.lean` and the
+pattern-index invariant `Indexed`), is determined by the unexpired facts, takes the same value on the live and on the
+reloaded state. MISSING for the full statement: that `iLoad` re-establishes `IndexInv` (it does so by the same `iadd`
+that the live state used; that proof belongs to the index provers), so it is a hypothesis here. -/
+theorem reload_observationally_equal_indexed_partial {β : Type} (IndexInv : St → Prop) (obs : St → β) (now : Int)
+    (hobs : ∀ s t : St, IndexInv s → IndexInv t →
+      s.facts.filter (fun p => unexpired p.2 now) = t.facts.filter (fun p => unexpired p.2 now) → obs s = obs t)
+    (ops : List StOp) (t : St) (ht : St.iLoad ((St.empty .indexed).runOps ops).store now = .ok t)
+    (hlive : IndexInv ((St.empty .indexed).runOps ops)) (hre : IndexInv t) :
+    obs t = obs ((St.empty .indexed).runOps ops) := by
+  obtain ⟨t', ht', _, hf⟩ := reload_facts_indexed ops now
+  rw [ht] at ht'
+  cases ht'
+  apply hobs t _ hre hlive
+  rw [hf, List.filter_filter]
+  simp
